@@ -44,7 +44,7 @@ SPEC = {
     "components_real": ["fakesnow/* incl. execute_string", "sqlglot", "duckdb engine (in-memory)"],
     "components_stubbed": ["nothing; three instances side by side in one process"],
     "assumptions": ["the worlds do not interact (separate FakeSnow instances)"],
-    "mandatory_probes": {"any": ["failing_statement", "nop_match", "special_literal", "comment_or_empty", "dict_cursor_class"]},
+    "mandatory_probes": {"any": ["failing_statement", "nop_match", "special_literal", "comment_or_empty", "dict_cursor_class", "variable_in_batch"]},
 }
 
 SPECIALS = ["semi;colon", "it's", 'dq"dq', "dash--dash", "/* not a comment */", "back\\slash", "new\nline", "tab\tin", "ünï©ode ✓", "", " lead and trail ", "%s %d %%", "a;b;c--d"]
@@ -60,6 +60,9 @@ def gen(rng: Any, prop: str, tier: str) -> dict[str, Any]:
         g.exec("s0", {"t": "create_table", "ref": [None, None, t], "cols": [["A", "INT"], ["B", "VARCHAR(40)"]]})
         pre.append(g.ops[-1]["sql"])
     g.ops.clear()
+    var_set = rng.random() < 0.4
+    if var_set:
+        pre.append(f"SET BV = {g.fresh()}")
     n = rng.randint(2, 15)
     fail_at = rng.randrange(n) if rng.random() < 0.35 else None
     stmts: list[dict[str, Any]] = []
@@ -69,7 +72,7 @@ def gen(rng: Any, prop: str, tier: str) -> dict[str, Any]:
             stmts.append({"sql": sql, "kind": "fail"})
             continue
         tables = g.all_tables()
-        kind = rng.choices(["insert", "select", "update", "delete", "create", "const", "noplike", "set"], [10, 6, 3, 2, 2, 4, 3, 1])[0]
+        kind = rng.choices(["insert", "select", "update", "delete", "create", "const", "noplike", "set", "usevar"], [10, 6, 3, 2, 2, 4, 3, 2, 3 if var_set else 0])[0]
         if kind == "insert":
             fq = rng.choice(tables)
             vals = []
@@ -100,8 +103,15 @@ def gen(rng: Any, prop: str, tier: str) -> dict[str, Any]:
             stmts.append({"sql": f"SELECT {lit(s)} AS C, {g.fresh()} AS N", "kind": "const", "special": True})
         elif kind == "noplike":
             stmts.append({"sql": rng.choice(["CREATE STAGE my_stage", "ALTER SESSION SET QUERY_TAG = 'x'", "GRANT SELECT ON T1 TO ROLE r", "create stage other_stage"]), "kind": "noplike"})
+        elif kind == "usevar":
+            # a session variable set earlier (in the batch or before it) used inside the batch
+            if rng.random() < 0.5:
+                stmts.append({"sql": "SELECT $BV AS V", "kind": "usevar"})
+            else:
+                stmts.append({"sql": f"INSERT INTO T1 VALUES ($BV, 'var{g.fresh()}')", "kind": "usevar"})
         else:
             stmts.append({"sql": f"SET BV = {g.fresh()}", "kind": "set"})
+            var_set = True
     # glue: separators, comments and empty statements between the statements
     glue = []
     for _ in range(n + 1):
@@ -201,6 +211,7 @@ def run(case: dict[str, Any]) -> dict[str, Any]:
         probes["special_literal"] = sum(1 for s in case["stmts"] if s.get("special"))
         probes["comment_or_empty"] = sum(1 for g in case["glue"][: len(stmts)] if "--" in g or "/*" in g or ";;" in g or "\n;" in g)
         probes["dict_cursor_class"] = 1 if cfg["dict"] else 0
+        probes["variable_in_batch"] = sum(1 for s in case["stmts"] if s["kind"] == "usevar")
         key = lambda e: None if e is None else [e.get("exc"), e.get("errno"), e.get("sqlstate")]  # noqa: E731
         if (err_a is None) != (err_b is None) or key(err_a) != key(err_b):
             violation = v_(f"exception-differs/batch={key(err_a)}/single={key(err_b)}", "execute_string must fail exactly where and how one-by-one execution fails",
